@@ -3,6 +3,8 @@
 # quick checks exactly as in MANIFEST.json, undo it straight afterwards. Any VIOLATION here is a false alarm.
 # Output: tools/refactors_on_repo.tsv  (id, property, exit code, violation class if any)
 cd /verif
+# never leave /repo patched, and never leave evidence written against a patched tree behind
+trap 'git -C /repo checkout -- . ; git -C /verif checkout -- evidence 2>/dev/null' EXIT
 out=tools/refactors_on_repo.tsv
 : > $out
 git -C /repo diff --quiet || { echo "/repo working tree is not clean"; exit 2; }
